@@ -198,6 +198,21 @@ class TOp1Sub(TOp1):
         return TData(["op1sub", data.data, a])
 
 
+class TOnlyHereParent(_TOp):
+    """A concrete operation used by exactly one oracle (C10: a derived class traced after its parent), never by the generators,
+    so that which of the two classes is met first in a process is under that oracle's control."""
+
+    def _process_logic(self, data, a="parent-default", b="pb"):
+        return TData(["ohp", data.data, a, b])
+
+
+class TOnlyHereChild(TOnlyHereParent):
+    """Derived from TOnlyHereParent with other defaults and one parameter without a default."""
+
+    def _process_logic(self, data, a="child-default", b="cb", c="cc"):
+        return TData(["ohc", data.data, a, b, c])
+
+
 class TOpW(_TOp):
     """Operation that also writes the context key `w` it declares."""
 
@@ -426,6 +441,20 @@ class TSink(DataSink[TData]):
         if isinstance(path, str) and path.startswith("/"):
             with open(path, "a") as fh:
                 fh.write(repr(data.data) + "\n")
+
+    @classmethod
+    def input_data_type(cls):
+        return TData
+
+
+class TSinkKw(DataSink[TData]):
+    """A sink with a keyword-only required parameter next to an ordinary one."""
+
+    @classmethod
+    def _send_data(cls, data: TData, path: str, *, tag):
+        if isinstance(path, str) and path.startswith("/"):
+            with open(path, "a") as fh:
+                fh.write(repr([tag, data.data]) + "\n")
 
     @classmethod
     def input_data_type(cls):
